@@ -459,6 +459,41 @@ def decision_table(stmts, atom_names, recognise, classify):
     return table, opaque
 
 
+def decision_table_eval(stmts, atom_names, evaluate, classify):
+    """Like decision_table, but `evaluate(expr, assign) -> True/False/None`
+    evaluates an atomic condition directly under an assignment (so that
+    derived atoms - `isinstance(x, (str, list))` from STR and LIST - can be
+    expressed).  Unevaluable conditions are opaque."""
+    import itertools
+    paths = enumerate_paths(stmts)
+    opaque = set()
+    table = {}
+    for values in itertools.product([True, False], repeat=len(atom_names)):
+        assign = dict(zip(atom_names, values))
+
+        def atom_eval(e):
+            r = evaluate(e, assign)
+            if r is None:
+                opaque.add(norm(e))
+            return r
+        labels = set()
+        for p in paths:
+            feasible = True
+            for c in p.conds:
+                if isinstance(c[0], str):
+                    continue
+                v = eval3(c[0], atom_eval)
+                if v is None:
+                    continue
+                if v != c[1]:
+                    feasible = False
+                    break
+            if feasible:
+                labels.add(classify(p))
+        table[values] = labels
+    return table, opaque
+
+
 def resolve_local(expr, func, depth=0):
     """Substitute locals that are bound exactly once by a plain assignment."""
     if depth > 4:
